@@ -726,3 +726,58 @@ package compose
 //@     modifies elems(nPaths), fresh()
 //@     invariant[paths] forall(j int :: 0 <= j && j < $i ==> nPaths[j] != nil && fresh(nPaths[j]) && nPaths[j].path == o.paths[j].path)
 //@     invariant[kept] forall(j int :: 0 <= j && j < len(nOptions) ==> nOptions[j] == o.options[j]) && forall(j int :: 0 <= j && j < len(nHandler) ==> nHandler[j] == o.handler[j])
+
+//@ spec optsOK(opts []Option) bool = forall(j int, p int :: 0 <= j && j < len(opts) && 0 <= p && p < len(opts[j].paths) ==> opts[j].paths[p] != nil)
+//@ spec nodesOK(nodes map[string]*chanCall) bool = forall(k string :: in(k, nodes) ==> nodes[k] != nil && nodes[k].action != nil)
+//@ spec optMapFresh(m map[string][]any) bool = m != nil && fresh(m) && forall(k string :: in(k, m) ==> m[k] == nil || fresh(m[k]))
+
+//@ func extractOption
+//@   props C16 C09
+//@   requires nodesOK(nodes) && optsOK(opts)
+//@   ensures[fresh] result1 == nil ==> optMapFresh(result0)
+//@   ensures[keys] result1 == nil ==> forall(k string :: in(k, result0) ==> in(k, nodes))
+//@   ensures[err_empty_path] (exists(j int, p int :: 0 <= j && j < len(opts) && 0 <= p && p < len(opts[j].paths) && len(opts[j].paths[p].path) == 0)) ==> result1 != nil
+//@   ensures[err_unknown_node] (exists(j int, p int :: 0 <= j && j < len(opts) && 0 <= p && p < len(opts[j].paths) && len(opts[j].paths[p].path) > 0 && !in(opts[j].paths[p].path[0], nodes))) ==> result1 != nil
+//@   ensures[err_subpath_of_component] (exists(j int, p int :: 0 <= j && j < len(opts) && 0 <= p && p < len(opts[j].paths) && len(opts[j].paths[p].path) > 1 && in(opts[j].paths[p].path[0], nodes) && nodes[opts[j].paths[p].path[0]].action.optionType != nil)) ==> result1 != nil
+//@   ensures[err_wrong_type] (exists(j int, p int :: 0 <= j && j < len(opts) && 0 <= p && p < len(opts[j].paths) && len(opts[j].paths[p].path) == 1 && len(opts[j].options) > 0 && in(opts[j].paths[p].path[0], nodes) && nodes[opts[j].paths[p].path[0]].action.optionType != nil && nodes[opts[j].paths[p].path[0]].action.optionType != typeOf(opts[j].options[0]))) ==> result1 != nil
+//@   ensures[no_type_no_option] result1 == nil ==> forall(k string :: in(k, nodes) && nodes[k].action.optionType != nil && (forall(j int :: 0 <= j && j < len(opts) && len(opts[j].options) > 0 ==> typeOf(opts[j].options[0]) != nodes[k].action.optionType)) ==> len(result0[k]) == 0)
+//@   loop 1:
+//@     modifies fresh()
+//@     invariant[fresh] optMapFresh(optMap)
+//@     invariant[keys] forall(k string :: in(k, optMap) ==> in(k, nodes))
+//@     invariant[no_bad_path] forall(j int, p int :: 0 <= j && j < $i && 0 <= p && p < len(opts[j].paths) ==> len(opts[j].paths[p].path) > 0 && in(opts[j].paths[p].path[0], nodes) && (len(opts[j].paths[p].path) > 1 ==> nodes[opts[j].paths[p].path[0]].action.optionType == nil) && (len(opts[j].paths[p].path) == 1 && len(opts[j].options) > 0 && nodes[opts[j].paths[p].path[0]].action.optionType != nil ==> nodes[opts[j].paths[p].path[0]].action.optionType == typeOf(opts[j].options[0])))
+//@     invariant[no_type_no_option] forall(k string :: in(k, nodes) && nodes[k].action.optionType != nil && (forall(j int :: 0 <= j && j < $i && len(opts[j].options) > 0 ==> typeOf(opts[j].options[0]) != nodes[k].action.optionType)) ==> len(optMap[k]) == 0)
+//@   loop 2:
+//@     modifies map(optMap), fresh()
+//@     invariant[fresh] optMapFresh(optMap)
+//@     invariant[keys] forall(k string :: in(k, optMap) ==> in(k, nodes))
+//@     invariant[no_type_no_option] forall(k string :: in(k, nodes) && nodes[k].action.optionType != nil && (forall(j int :: 0 <= j && j <= $i_1 && len(opts[j].options) > 0 ==> typeOf(opts[j].options[0]) != nodes[k].action.optionType)) ==> len(optMap[k]) == 0)
+//@   loop 3:
+//@     modifies map(optMap), fresh()
+//@     invariant[fresh] optMapFresh(optMap)
+//@     invariant[keys] forall(k string :: in(k, optMap) ==> in(k, nodes))
+//@     invariant[no_bad_path] forall(p int :: 0 <= p && p < $i ==> len(opt.paths[p].path) > 0 && in(opt.paths[p].path[0], nodes) && (len(opt.paths[p].path) > 1 ==> nodes[opt.paths[p].path[0]].action.optionType == nil) && (len(opt.paths[p].path) == 1 && len(opt.options) > 0 && nodes[opt.paths[p].path[0]].action.optionType != nil ==> nodes[opt.paths[p].path[0]].action.optionType == typeOf(opt.options[0])))
+//@     invariant[no_type_no_option] forall(k string :: in(k, nodes) && nodes[k].action.optionType != nil && (forall(j int :: 0 <= j && j <= $i_1 && len(opts[j].options) > 0 ==> typeOf(opts[j].options[0]) != nodes[k].action.optionType)) ==> len(optMap[k]) == 0)
+
+//@ spec designatedTo(o Option, key string) bool = exists(p int :: 0 <= p && p < len(o.paths) && len(o.paths[p].path) == 1 && o.paths[p].path[0] == key)
+
+//@ func initNodeCallbacks
+//@   props C10 C16
+//@   requires optsOK(opts)
+//@   at call icb.AppendHandlers: assert[designated_only] (forall(j int :: 0 <= j && j < len(opts) ==> !designatedTo(opts[j], key))) ==> len(cbs) == 0
+//@   loop 1:
+//@     modifies fresh()
+//@     invariant[fresh] cbs == nil || fresh(cbs)
+//@     invariant[designated_only] (forall(j int :: 0 <= j && j < $i ==> !designatedTo(opts[j], key))) ==> len(cbs) == 0
+//@   loop 2:
+//@     modifies fresh()
+//@     invariant[unchanged] len(cbs) == pre(len(cbs)) && (cbs == nil || fresh(cbs))
+//@     invariant[nomatch] forall(p int :: 0 <= p && p < $i ==> !(len(opts[i].paths[p].path) == 1 && opts[i].paths[p].path[0] == key))
+
+//@ func initGraphCallbacks
+//@   props C10 C16
+//@   at call icb.AppendHandlers: assert[undesignated_only] forall(i int :: 0 <= i && i < len(cbs) ==> exists(j int, m int :: 0 <= j && j < len(opts) && len(opts[j].paths) == 0 && 0 <= m && m < len(opts[j].handler) && opts[j].handler[m] == cbs[i]))
+//@   loop 1:
+//@     modifies fresh()
+//@     invariant[fresh] cbs == nil || fresh(cbs)
+//@     invariant[undesignated_only] forall(i int :: 0 <= i && i < len(cbs) ==> exists(j int, m int :: 0 <= j && j < $i && len(opts[j].paths) == 0 && 0 <= m && m < len(opts[j].handler) && opts[j].handler[m] == cbs[i]))
